@@ -30,6 +30,15 @@ def generate(rng, tier, ctx):
             cases.append(('ecdsa_sign %s %s %s _' % (h32(m), h32(d), nf), ('sign_custom', cls)))
             cases.append(('ecdsa_sign_rec %s %s %s _' % (h32(m), h32(d), nf), ('sign_rec_custom', cls)))
     cases.append(('ecdsa_sign %s %s %s _' % (h32(1), h32(0), 'c' + h32(7)), ('sign_custom', 'invkey-const')))
+    # an attempt that computes r but ends with s == 0 (message crafted as m = -r*d), followed by a failing nonce callback:
+    # the call returns 0 and must leave an all-zero signature (and recid)
+    for _ in range(6 * n):
+        d = rng.seckey(); k = rng.seckey(); R = pmul(k, G); r = R[0] % N
+        m = (-r * d) % N
+        for mm in [m] + ([m + N] if m + N < M256 else []):
+            cases.append(('ecdsa_sign %s %s f1:%s _' % (h32(mm), h32(d), h32(k)), ('sign_custom', 's-zero-then-fail')))
+            cases.append(('ecdsa_sign_rec %s %s f1:%s _' % (h32(mm), h32(d), h32(k)), ('sign_rec_custom', 's-zero-then-fail')))
+            cases.append(('ecdsa_sign %s %s f2:%s _' % (h32(mm), h32(d), h32(k)), ('sign_custom', 's-zero-then-ok')))
     # --- verification: honest, s -> n-s, boundary r/s, wrong key/msg, zero pubkey
     for _ in range(40 * n):
         d = rng.seckey(); m = rng.choice(MSGS + [rng.rand256()] * 3); k = rng.seckey()
